@@ -72,6 +72,9 @@ pub struct World {
     /// counts them): 0 none, 1 one after the last record, 2 after the header and in the middle as well
     #[serde(default)]
     pub csv_blank_lines: u8,
+    /// gzip files consist of this many members (0 / 1 = a single member, as gzip writes them)
+    #[serde(default)]
+    pub gz_members: u8,
     pub explicit_counts: bool,
     pub traversal: Traversal,
     pub algorithm: Value,
@@ -138,6 +141,31 @@ fn gz(data: &[u8]) -> Vec<u8> {
     let mut e = flate2::write::GzEncoder::new(Vec::new(), flate2::Compression::default());
     e.write_all(data).unwrap();
     e.finish().unwrap()
+}
+
+/// a gzip file of several members (what `cat a.gz b.gz`, pigz -i or bgzip produce: RFC 1952 2.2 says a
+/// reader must treat it as the concatenation of the members' contents); members end at line ends
+fn gz_members(data: &[u8], members: u8) -> Vec<u8> {
+    if members <= 1 || data.len() < 4 {
+        return gz(data);
+    }
+    let mut out = vec![];
+    let mut start = 0;
+    for k in 1..=members as usize {
+        let mut end = if k == members as usize { data.len() } else { (data.len() * k / members as usize).max(start) };
+        while end < data.len() && end > start && data[end - 1] != b'\n' {
+            end += 1;
+        }
+        if end > start {
+            out.extend(gz(&data[start..end]));
+        }
+        start = end;
+    }
+    out
+}
+
+fn gz_members_of(w: &World, data: &[u8]) -> Vec<u8> {
+    gz_members(data, w.gz_members)
 }
 
 fn fmt_f(x: f64) -> String {
@@ -264,6 +292,7 @@ impl World {
             text_variant: 0,
             vertex_cols,
             csv_blank_lines: 0,
+            gz_members: 0,
             explicit_counts: r.chance(0.3),
             traversal: Traversal::Distance { unit: "kilometers".into() },
             algorithm: json!({"type": "a*"}),
@@ -401,9 +430,9 @@ impl World {
     pub fn files(&self) -> Vec<(String, Vec<u8>)> {
         let mut v = vec![];
         let e = self.shape(self.edges_csv());
-        v.push((self.edges_path(), if self.gz_edges { gz(&e) } else { e }));
+        v.push((self.edges_path(), if self.gz_edges { gz_members_of(self, &e) } else { e }));
         let vx = self.shape(self.vertices_csv());
-        v.push((self.vertices_path(), if self.gz_vertices { gz(&vx) } else { vx }));
+        v.push((self.vertices_path(), if self.gz_vertices { gz_members_of(self, &vx) } else { vx }));
         let tab = |xs: &Vec<f64>| -> Vec<u8> {
             let mut s = String::new();
             for x in xs {
@@ -411,7 +440,7 @@ impl World {
                 s.push('\n');
             }
             let b = self.shape(s);
-            if self.gz_tables { gz(&b) } else { b }
+            if self.gz_tables { gz_members_of(self, &b) } else { b }
         };
         v.push((self.table_path("speeds"), tab(&self.speeds)));
         // `grades` are decimal; the file holds them in the configured unit of the grade table
@@ -423,10 +452,10 @@ impl World {
         let grades_in_unit: Vec<f64> = self.grades.iter().map(|g| q9(g * grade_factor)).collect();
         v.push((self.table_path("grades"), tab(&grades_in_unit)));
         let g = self.shape(self.geoms_txt());
-        v.push((self.table_path("geoms"), if self.gz_tables { gz(&g) } else { g }));
+        v.push((self.table_path("geoms"), if self.gz_tables { gz_members_of(self, &g) } else { g }));
         if self.headings.is_some() {
             let h = self.shape(self.headings_csv());
-            v.push((self.headings_path(), if self.gz_tables { gz(&h) } else { h }));
+            v.push((self.headings_path(), if self.gz_tables { gz_members_of(self, &h) } else { h }));
         }
         if let Some(rc) = &self.road_classes {
             let mut s = String::new();
@@ -434,7 +463,7 @@ impl World {
                 s.push_str(&format!("{}\n", c));
             }
             let b = self.shape(s);
-            v.push((self.table_path("classes"), if self.gz_tables { gz(&b) } else { b }));
+            v.push((self.table_path("classes"), if self.gz_tables { gz_members_of(self, &b) } else { b }));
         }
         if self.uuid_plugin {
             let mut s = String::new();
@@ -443,7 +472,7 @@ impl World {
                 s.push('\n');
             }
             let b = self.shape(s);
-            v.push((self.table_path("uuids"), if self.gz_tables { gz(&b) } else { b }));
+            v.push((self.table_path("uuids"), if self.gz_tables { gz_members_of(self, &b) } else { b }));
         }
         v.push(("/sim/config.json".to_string(), b"{}".to_vec()));
         v
